@@ -31,8 +31,6 @@ package plugins
 
 //@ func (*BinderPlugins).PreBind
 //@   props C11
-//@   trusted
-//@   note TEMPORARY (engine limitation reported to main): the loop-head havoc for the callee-contract write `fields(pod)` is whole-family, so the frame cannot be proved; body = one loop over the registered plugins calling Plugin.PreBind (assumed contract above). context.Background() has no model either.
 //@   requires bp != nil && pod != nil
 //@   requires forall i int :: 0 <= i && i < len(bp.plugins) ==> bp.plugins[i] != nil
 //@   modifies fields(pod)
@@ -45,8 +43,6 @@ package plugins
 
 //@ func (*BinderPlugins).PostBind
 //@   props C11
-//@   trusted
-//@   note TEMPORARY (engine limitation reported to main): the loop-head havoc for the callee-contract write `fields(pod)` is whole-family, so the frame cannot be proved; body = one loop over the registered plugins calling Plugin.PostBind (assumed contract above). context.Background() has no model either.
 //@   requires bp != nil && pod != nil
 //@   requires forall i int :: 0 <= i && i < len(bp.plugins) ==> bp.plugins[i] != nil
 //@   modifies fields(pod)
